@@ -132,12 +132,13 @@ Definition case_sat (f : cnf) (vars : list string) (orc : list clause) (verdict 
            (asg : list (string * bool)) (proofs : list (nat * list nat)) : nat :=
   let f0 := if %s then map dedup_lits f else f in
   let corr :=
-    match fst (solve_cnf %s 400 f vars orc), verdict with
-    | RSat a, 0 => asg_eqb a asg
-    | RUnsat p, 1 => proofs_eqb p proofs
-    | RError, 2 => true
-    | RFuel, 3 => true
-    | _, _ => false
+    match fst (solve_cnf %s 1500 f vars orc), verdict with
+    | RSat a, 0 => if asg_eqb a asg then 1 else 0
+    | RUnsat p, 1 => if proofs_eqb p proofs then 1 else 0
+    | RError, 2 => 1
+    | RFuel, 3 => 1
+    | RFuel, _ => 5            (* the model ran out of fuel: no answer to compare *)
+    | _, _ => 0
     end in
   let prop :=
     match verdict with
@@ -145,7 +146,7 @@ Definition case_sat (f : cnf) (vars : list string) (orc : list clause) (verdict 
     | 1 => if check_trace f0 proofs then (if brute_sat f then 4 else 0) else 3
     | _ => 0
     end in
-  (if corr then 1 else 0) + 10 * prop.
+  corr + 10 * prop.
 ''' % (fx, fx))
 
     cases = []
@@ -162,6 +163,13 @@ Definition case_sat (f : cnf) (vars : list string) (orc : list clause) (verdict 
         nv = r.choice([1, 2, 3, 3, 4, 5, 6, 8, 10, 12])
         nc = r.randint(0, min(60, 2 + nv * 5))
         cases.append((random_cnf(r, nv, nc), 'random'))
+    # 3-SAT around and above the satisfiability threshold: refutations in which learned clauses are derived from learned clauses
+    for _ in range(60 if tier == 'quick' else 600):
+        nv = r.choice([6, 7, 8, 9, 10, 11, 12])
+        names = ['v%d' % i for i in range(nv)]
+        nc = int(nv * r.choice([4.3, 4.8, 5.5, 6.5]))
+        f3 = [[(v, r.random() < 0.5) for v in r.sample(names, 3)] for _ in range(nc)]
+        cases.append((f3, '3sat'))
     corpus = [([[('x', False), ('x', False)]], 'corpus:duplicate-literal'),
               ([[('x', True), ('x', True)], [('x', False)]], 'corpus:duplicate-literal'),
               ([], 'corpus:empty-cnf'), ([[]], 'corpus:empty-clause')]
@@ -197,7 +205,9 @@ Definition case_sat (f : cnf) (vars : list string) (orc : list clause) (verdict 
         elif prop == 4:
             run.violation('property', 'verdict %s disagrees with exhaustive search: %s' % (verdict, f),
                           dict(cnf=f, verdict=verdict, payload=payload), key='C15:wrong-verdict')
-        if corr != 1 and verdict != 'timeout':
+        if corr == 5:
+            run.stat('model_fuel_exhausted')
+        elif corr != 1 and verdict != 'timeout':
             n_dis += 1
             if n_dis <= 5:
                 run.violation('correspondence', 'correspondence:C15/solve_cnf: model and sat.solve_cnf disagree on %s' % f,
